@@ -22,7 +22,8 @@ EXPLANATION = (
     "guarded (on every path) by a test that excludes WORKING_SESSION, so the state recorded in the file is kept; "
     "(R4) Read/Append/WriteWorkingFile set the file type before and reset it after their work. "
     "(R2b) both passes accept the state letter under the same condition and then consume the same sequence of stream operations. (R6) a cleared manager is recognised as empty by STEPfile::SetFileIdIncrement (shared with C14 R6). Not decided: population equality and byte-for-byte stability of the second save."
-    " (R7) a std::string declared outside a reading loop of STEPfile that is filled and cleared inside the loop (the comment accumulator of both passes, the skip buffer) is cleared after its last fill on every flag-consistent path that re-enters the loop body: nothing collected for a skipped (deleted) instance is carried to the next one.")
+    " (R7) a std::string declared outside a reading loop of STEPfile that is filled and cleared inside the loop (the comment accumulator of both passes, the skip buffer) is cleared after its last fill on every flag-consistent path that re-enters the loop body: nothing collected for a skipped (deleted) instance is carried to the next one."
+    " (R8) in STEPfile::AppendFile every path through the arm that recognises a magic keyword (ISO-10303-21, STEP_WORKING_SESSION) calls SetFileType with the mode that belongs to it.")
 
 
 def state_enum(prog):
@@ -345,6 +346,62 @@ def r7_iteration_scratch_cleared(prog, res):
     res.floor("R7.iteration_scratch_cleared", "per-iteration scratch strings in reading loops", n, 2)
 
 
+MAGIC_MODE = {"ISO-10303-21": "VERSION_CURRENT", "STEP_WORKING_SESSION": "WORKING_SESSION"}
+
+
+def r8_keyword_selects_mode(prog, res):
+    """The first keyword of a file decides how both passes read it: STEPfile::AppendFile is the one place where a file that announces
+    itself as STEP_WORKING_SESSION puts the reader into working-session mode when the caller did not (ReadExchangeFile, the file-name
+    constructor, p21read).  On every path through the arm that recognises a magic keyword, SetFileType is called with the mode that
+    belongs to it (structured must-call: a call inside only one branch of a nested `if` does not count)."""
+    f = prog.one("STEPfile::AppendFile")
+    if f is None:
+        res.broke("anchor vanished: STEPfile::AppendFile")
+        return
+
+    def mode_of(call):
+        a = call_args(call)
+        if not a:
+            return None
+        for y in walk(a[0]):
+            if y["k"] == "Ref" and y.get("n") in MAGIC_MODE.values():
+                return y["n"]
+        return None
+
+    def must_call(st, mode):
+        if st is None:
+            return False
+        k = st["k"]
+        if k == "Compound":
+            return any(must_call(c, mode) for c in st.get("ch") or [])
+        if k == "If":
+            ch = st["ch"]
+            return len(ch) > 2 and ch[2] is not None and must_call(ch[1], mode) and must_call(ch[2], mode)
+        if k in ("While", "For", "Do", "Switch"):
+            return False
+        return any(y["k"] == "Call" and (y.get("fn") or "").endswith("SetFileType") and mode_of(y) == mode for y in walk(st))
+    n = 0
+    for x in f.walk():
+        if x["k"] != "If":
+            continue
+        kw = None
+        for y in walk(x["ch"][0]):
+            if y["k"] == "Call" and (y.get("fn") or "").split("::")[-1] in ("strncmp", "strcmp", "__builtin_strncmp", "__builtin_strcmp", "compare"):
+                for z in walk(y):
+                    if z["k"] == "Str" and z.get("s") in MAGIC_MODE:
+                        kw = z["s"]
+        if kw is None:
+            continue
+        n += 1
+        ok = must_call(x["ch"][1], MAGIC_MODE[kw])
+        res.add("R8.keyword_selects_mode", "R8|src/cleditor/STEPfile.cc|STEPfile::AppendFile|%s" % kw, f.where(x), ok,
+                "every path through the arm for `%s` calls SetFileType( %s )" % (kw, MAGIC_MODE[kw]) if ok else
+                "a path through the arm that recognises `%s` does not call SetFileType( %s ): a file that announces itself as %s is read in "
+                "whatever mode the object happened to be in (state letters skipped as garbage, deleted instances brought back)"
+                % (kw, MAGIC_MODE[kw], kw))
+    res.floor("R8.keyword_selects_mode", "magic keywords recognised by AppendFile", n, 2)
+
+
 def run(prog, res, tier):
     from rules import c13 as _c13
     _c13.r3_clear_resets_max(prog, res, rule="R6.cleared_manager_is_recognised_empty")
@@ -353,3 +410,4 @@ def run(prog, res, tier):
     r3_state_kept(prog, res)
     r4_bracket(prog, res)
     r7_iteration_scratch_cleared(prog, res)
+    r8_keyword_selects_mode(prog, res)
